@@ -53,7 +53,7 @@ def mat_plan(thorough):
     plan = [(1, 2, 2, True, "{0}", 2), (2, 3, 3, True, "{0, 2}", 2), (3, 2, 2, True, "{0, 2}", 2), (3, 3, 3, True, "{2}", 2),
             (2, 2, 2, False, "{0, 1}", 2), (3, 2, 2, False, "{1}", 2), (4, 2, 2, True, "{2}", 2)]
     if thorough:
-        plan += [(2, 3, 3, True, "{0, 1, 2}", 5), (3, 3, 3, True, "{0, 1}", 2), (4, 3, 3, True, "{2}", 1), (2, 3, 2, False, "{0, 1, 2}", 5),
+        plan += [(2, 3, 3, True, "{0, 1, 2}", 5), (3, 3, 3, True, "{0, 1}", 2), (4, 3, 3, True, "{2}", 0), (2, 3, 2, False, "{0, 1, 2}", 5),
                  (3, 2, 3, False, "{0, 1}", 0), (4, 2, 2, False, "{1}", 0), (5, 2, 2, True, "{0, 2}", 2), (6, 2, 2, True, "{2}", 2)]
     return plan
 
